@@ -22,6 +22,7 @@ func init() {
 			"the capture pipe (read end = the field receiving os.Pipe()#0) is drained by a goroutine started before cmd.Run(), reading the pipe itself to EOF without closing it, into a buffer that is fresh for each execution and read only after the drain signalled completion (C11.pipe-drained)",
 			"the NAME=value entries the parameter parser returns are appended to DAG.Env whole, unconditionally and last, so a named parameter overrides an `env:` entry of the same name in Step.Variables (C11.params-override-env)",
 			"the recorded parameter string quotes each element it joins with the parser's delimiter (C11.recorder-quotes) — violated today, known finding F22",
+			"the restart command re-loads the DAG with GetLatestStatus(…).Params - the persisted record of the run it repeats, not the live answer, which falls back to the defaults once the run has ended (C11.restart-params, shared with C10.flows)",
 		},
 		NotDec: []string{"the parameter regular expression's grammar, byte-exactness of values, shell quoting", "the process environment as the third channel (os.Setenv ordering across steps)"},
 	})
@@ -29,6 +30,7 @@ func init() {
 
 func runC11(e *Env) {
 	c11ParamFlow(e)
+	cRestartParams(e, "C11.restart-params")
 	c11OutputStore(e)
 	c11OutputVisibility(e)
 	c11Capture(e)
